@@ -249,6 +249,13 @@ def oracle_histories():
     if flags != [(w >> 24) & 0xff for w in words]:
         return {'violates': True, 'what': 'trace identifiers %s decoded one after the other carry the flags %r, their words pack %r' % (
             [hex(w) for w in words], flags, [(w >> 24) & 0xff for w in words])}
+    segs = [{'p': {'w': 1, 'p': 2, 'rs': 0}, 'a': {'c': 1, 'sc': 1}}, {'p': {'w': 3, 'p': 4}}, {'lp': 1}]
+    strings = {0: 'msg', 1: 'lit'}
+    outs = [OsLogEvent.parse_decomposed_segment(sg, strings) for sg in segs]
+    want = [{'placeholder': {'raw_string': 'msg', 'width': 1, 'precision': 2}, 'arg': {'category': 1, 'scalar_category': 1}},
+            {'placeholder': {'width': 3, 'precision': 4}}, {'literal_prefix': 'lit'}]
+    if outs != want:
+        return {'violates': True, 'what': 'message segments decoded one after the other are %r, each decoded alone is %r' % (outs, want)}
     return {'violates': False}
 
 
